@@ -32,6 +32,68 @@ def level_loop(ck, am, rule):
     return loops[0]
 
 
+def level_range_by_mode(am, il):
+    """{"Normal": [(lo, hi, term)], "Rollback": [...]}: the bounds of the range the level loop iterates, per apply mode - whether the
+    range is built inside the arms of the match on the mode, or once afterwards from bounds the arms computed (as a pair or as two
+    locals)."""
+    from .c04 import rollback_regions
+    region, normal, sws = rollback_regions(am)
+    rng_locals = df.operand_trace(am, il["next_term"]["args"][0])
+    news = [(bb, t) for bb, t in am.calls() if (callee_of(t).get("rpath") or "").endswith("RangeInclusive::<Idx>::new") and "p" not in t["dest"] and t["dest"]["l"] in rng_locals]
+    out = {"Normal": [], "Rollback": [], "other": []}
+    mode_of = lambda b: "Normal" if b in normal else "Rollback" if b in region else None
+
+    def field_by_mode(tl, f, res):
+        for dd in df.defs_through_copies(am, tl):
+            m = mode_of(dd[1])
+            if m is None or dd[0] != "stmt":
+                return False
+            rv = dd[3]["rv"]
+            if not (rv["k"] == "agg" and rv.get("ak") == "tuple" and f < len(rv["ops"])):
+                return False
+            res.setdefault(m, []).append(df.operand_expr(am, rv["ops"][f]))
+        return True
+
+    def per_mode(op):
+        """{mode: [expr]} for an operand whose value was decided in the arms of the match on the mode, else None."""
+        if op.get("k") not in ("copy", "move"):
+            return None
+        pl = op["pl"]
+        ps = pl.get("p", [])
+        res = {}
+        if len(ps) == 1 and isinstance(ps[0], dict) and "f" in ps[0]:
+            return res if field_by_mode(pl["l"], ps[0]["f"], res) and res else None
+        if ps:
+            return None
+        for dd in df.defs_through_copies(am, pl["l"]):
+            if dd[0] != "stmt":
+                return None
+            rv = dd[3]["rv"]
+            if rv["k"] == "use" and rv["op"].get("k") in ("copy", "move") and len(rv["op"]["pl"].get("p", [])) == 1 and \
+                    isinstance(rv["op"]["pl"]["p"][0], dict) and "f" in rv["op"]["pl"]["p"][0]:
+                if not field_by_mode(rv["op"]["pl"]["l"], rv["op"]["pl"]["p"][0]["f"], res):
+                    return None
+                continue
+            m = mode_of(dd[1])
+            if m is None:
+                return None
+            res.setdefault(m, []).append(df.rvalue_expr(am, rv))
+        return res if res else None
+    for bb, t in news:
+        m = mode_of(bb)
+        if m is not None:
+            out[m].append((df.operand_expr(am, t["args"][0]), df.operand_expr(am, t["args"][1]), t))
+            continue
+        lo, hi = per_mode(t["args"][0]), per_mode(t["args"][1])
+        if lo and hi and set(lo) == set(hi):
+            for m in lo:
+                for a, b in zip(lo[m], hi[m]):
+                    out[m].append((a, b, t))
+        else:
+            out["other"].append((df.operand_expr(am, t["args"][0]), df.operand_expr(am, t["args"][1]), t))
+    return out
+
+
 def r1(ck, rule="C02-R1"):
     prog = ck.prog
     am = ck.anchor("FilePatch::<'a, &'a [u8]>::apply_modify")
@@ -45,15 +107,11 @@ def r1(ck, rule="C02-R1"):
     ck.require(fwd, rule, "levels drawn in increasing order", "the level iterator is %s driven by %s" % (ity, il["callee"]["path"]), am.where(il["next_term"]),
                ok_detail="%s via Iterator::next" % ity)
     # the range: on the Normal edge  RangeInclusive::new(0, min(limit, max_useable_fuzz))
-    from .c04 import rollback_regions
-    region, normal, sws = rollback_regions(am)
-    rng_locals = df.operand_trace(am, il["next_term"]["args"][0])
-    news = [(bb, t) for bb, t in am.calls() if (callee_of(t).get("rpath") or "").endswith("RangeInclusive::<Idx>::new") and "p" not in t["dest"] and t["dest"]["l"] in rng_locals]
-    norm = [(bb, t) for bb, t in news if bb in normal]
-    if ck.require(len(norm) == 1, rule, "level range built once in normal mode", "normal-mode range constructions: %d" % len(norm), am.where()):
-        bb, t = norm[0]
-        lo = df.operand_expr(am, t["args"][0])
-        hi = df.operand_expr(am, t["args"][1])
+    by_mode = level_range_by_mode(am, il)
+    norm = by_mode["Normal"]
+    if ck.require(len(norm) == 1 and not by_mode["other"], rule, "level range built once in normal mode",
+                  "normal-mode range constructions: %d (%d not attributable to a mode)" % (len(norm), len(by_mode["other"])), am.where()):
+        lo, hi, t = norm[0]
         ck.require(lo == ("const", 0, "usize"), rule, "levels start at 0", "the level range starts at %s" % df.show(lo), am.where(t))
         good = df.is_call(hi, "core::cmp::min") and any(isinstance(a, tuple) and a[0] == "param" and a[2] == "fuzz" for a in hi[2]) and \
             any(df.is_call(a, "max_useable_fuzz") for a in hi[2])
@@ -186,7 +244,7 @@ def r2(ck, rule="C02-R2"):
         for var, edge in sw["edges"].items():
             reg = cfg.dominated_by_edge(tah, edge)
             for l in tl:
-                for dd in df.defs_of(tah).all(l):
+                for dd in df.defs_through_copies(tah, l):
                     if dd[1] in reg:
                         e = df.rvalue_expr(tah, dd[3]["rv"]) if dd[0] == "stmt" else df.call_expr(tah, dd[2])
                         uses_off = df.mentions(e, lambda x: isinstance(x, tuple) and x[0] == "param" and x[2] == "last_hunk_offset")
@@ -468,6 +526,18 @@ def r4_matches_contract(ck, rule, tah, T, needle, ctx):
                                     excl.add(edge)
                             except seqmodel.Unsupported:
                                 pass
+                    # haystack.get(lo..hi) is None exactly when not lo <= hi <= len(haystack)
+                    for sw in pt.discr_switches(mfn, lambda ex, rv: True):
+                        g_ = sw["expr"]
+                        if df.is_call(g_, "<impl [T]>::get") and len(g_[2]) == 2 and seqmodel.strip(g_[2][0])[:2] == ("param", 2) and \
+                                isinstance(g_[2][1], tuple) and g_[2][1][0] == "agg" and g_[2][1][1].endswith("ops::range::Range") and sw["edges"].get("None"):
+                            lo_, hi_ = g_[2][1][3]
+                            try:
+                                if all(mm.val(lo_, env) <= mm.val(hi_, env) <= env["n"] for env in seqmodel.valuations(["A"], ["n", "r"], 4)
+                                       if 0 <= env["A"] <= env["n"] - env["r"]):
+                                    excl.add(sw["edges"]["None"])
+                            except seqmodel.Unsupported:
+                                pass
                     good = bool(excl) and dd[1] not in cfg.reachable(mfn, 0, disabled=excl)
                 except seqmodel.Unsupported as ex:
                     good = False
@@ -477,7 +547,10 @@ def r4_matches_contract(ck, rule, tah, T, needle, ctx):
                 ncmp += 1
                 a, b = e[2]
                 good = False
-                if df.is_call(a, "Index<I> for [T]>::index") and seqmodel.strip(b)[:2] == ("param", 1) and seqmodel.strip(a[2][0])[:2] == ("param", 2):
+                if isinstance(a, tuple) and a[0] == "field" and a[2] == 0 and isinstance(a[1], tuple) and a[1][0] == "downcast" and a[1][2] == "Some" and \
+                        df.is_call(a[1][1], "<impl [T]>::get"):
+                    a = a[1][1]        # the window handed out by haystack.get(at .. at + needle.len())
+                if (df.is_call(a, "Index<I> for [T]>::index") or df.is_call(a, "<impl [T]>::get")) and seqmodel.strip(b)[:2] == ("param", 1) and seqmodel.strip(a[2][0])[:2] == ("param", 2):
                     rg = a[2][1]
                     try:
                         if df.is_call(e, "::eq"):       # haystack[at .. at + needle.len()] == needle
@@ -509,7 +582,7 @@ def r4_matches_contract(ck, rule, tah, T, needle, ctx):
                 if var not in want:
                     continue
                 reg = cfg.dominated_by_edge(tah, edge)
-                ds = [dd for dd in df.defs_of(tah).all(T[1]) if dd[1] in reg and dd[0] in ("stmt", "call")]
+                ds = [dd for dd in df.defs_through_copies(tah, T[1]) if dd[1] in reg and dd[0] in ("stmt", "call")]
                 if not ck.require(len(ds) == 1, rule, "one first guess for %s hunks" % var, "%d assignments of the expected line on the %s arm" % (len(ds), var),
                                   tah.where()):
                     continue
